@@ -1,7 +1,7 @@
 // C10: run a real AspifTextInput over the case's bytes with a Recorder attached.
 // Case: len b1..bn.  Observation: status (1 accepted, 0 parse error), error line (0 if none), the calls delivered.
-// Every other case (reuse::primed, a hash of the case) reads the text with an AspifTextInput OBJECT that has read "#incremental.\n" before
-// (the primer's calls are discarded). See reuse.h.
+// Every other case (reuse::primed, a hash of the case) reads the text with an AspifTextInput OBJECT that has read - or REFUSED, in the middle of a
+// statement / aggregate / string / later step - a primer text before (chosen by the case's hash; the primer's calls are discarded). See reuse.h.
 #include "common.h"
 #include "rec.h"
 #include "reuse.h"
@@ -15,7 +15,7 @@ int main() {
 		size_t len = (size_t)c.next();
 		std::string in = c.bytes(len);
 		std::istringstream is(in);
-		std::istringstream primer(reuse::TEXT_PRIMER);
+		std::istringstream primer(std::string(primed ? reuse::textPrimer(c).text : ""));
 		Obs calls; Recorder rec(calls);
 		int status = 1; g_line = 0;
 		try {
